@@ -214,7 +214,6 @@ theorem segment_lookup (seg : List Int) (idx : List Int) (x : Int)
 
 theorem findForKey_spec (bucketOf : Nat → Nat → Int) (keyHash : Str → Int) (sh : ShardFn) (idx : List Int)
     (hwf : ShardWF sh idx) (hlen : (idx.length : Int) ≤ 2 ^ 63) (k : Key) (hk : k.WF)
-    (hmm : ∀ n, sh = .mycatMod n → ∀ v, numValue k = .ok v → v ≠ minInt64)
     (hprobed : sh.probed = true) :
     findForKey bucketOf keyHash sh k ≠ .panic ∧ ∀ i, findForKey bucketOf keyHash sh k = .ok i → i ∈ idx := by
   cases sh with
@@ -263,18 +262,18 @@ theorem findForKey_spec (bucketOf : Nat → Nat → Int) (keyHash : Str → Int)
   | mycatMod n =>
     obtain ⟨hn, hc, hl⟩ := hwf
     simp only [findForKey]
-    cases hv : numValue k with
-    | fail => simp
-    | panic => cases k <;> simp [numValue] at hv; split at hv <;> cases hv
-    | ok v =>
+    cases hv : parseBigDec (getString k) with
+    | none => simp
+    | some v =>
       simp only
       rw [if_neg (by omega)]
-      have := goMod_hackAbs v n hn (hmm n rfl v hv) (numValue_range k hk v hv).1
+      have h1 := Int.emod_nonneg (v.natAbs : Int) (show n ≠ 0 by omega)
+      have h2 := Int.emod_lt_of_pos (v.natAbs : Int) hn
       refine ⟨by simp, ?_⟩
       intro i hi
       simp only [R.ok.injEq] at hi
       subst hi
-      exact consec_mem_of_lt hc hl this.1 this.2
+      exact consec_mem_of_lt hc hl h1 h2
   | mycatLong seg =>
     simp only [findForKey]
     cases hv : numValue k with
